@@ -565,6 +565,41 @@ func glueFns(c *Ctx) {
 				}
 			}
 		}
+		// HandleTell on chat messages: the command words in any case, numeric arguments around the accepted ranges,
+		// empty / space-only / multi-space messages, random printable ASCII
+		words := []string{"level", "Level", "LEVEL", "size", "Size", "sIZE", "help", "HELP", "hello", "", "levels", "siz"}
+		targs := []string{"", "max", "Max", "0", "1", "2", "3", "4", "5", "6", "7", "8", "9", "13", "14", "15", "100", "-1", "+5", "05", "5 ", " 5", "5 6", "x",
+			"9223372036854775807", "9223372036854775808", "-9223372036854775808", "-9223372036854775809", "18446744073709551615", "18446744073709551616"}
+		emitTell := func(msg string) {
+			h := "-"
+			if msg != "" {
+				h = hex.EncodeToString([]byte(msg))
+			}
+			for _, k := range []string{"F", "T"} {
+				for _, ig := range []string{"0", "1"} {
+					fo := strconv.Itoa(c.R.Intn(2))
+					out := c.Emit("gluefn tell " + k + " " + strconv.Itoa([]int{0, 6, 100}[c.R.Intn(3)]) + " " + ig + " " + fo + " " + h)
+					c.Count("C20glue.D.tell." + k + "." + strings.Fields(out + " ?")[0])
+				}
+			}
+		}
+		for _, w := range words {
+			emitTell(w)
+			for _, a := range targs {
+				emitTell(w + " " + a)
+			}
+		}
+		for _, m := range []string{" ", "  ", " level 3", "level  3", "level\t3", "size 5 extra", "help me"} {
+			emitTell(m)
+		}
+		for i := 0; i < 300; i++ {
+			n := c.R.Intn(12)
+			b := make([]byte, n)
+			for j := range b {
+				b[j] = byte(32 + c.R.Intn(95))
+			}
+			emitTell(string(b))
+		}
 		for _, v := range []string{"none", "center", "doublestack", "cairn"} {
 			for size := 3; size <= 8; size++ {
 				c.Emit("gluefn cfg " + v + " " + strconv.Itoa(size))
